@@ -62,6 +62,12 @@ package corebgp
 //@   ensures [value_exact] err == nil ==> *a == true
 //@   ensures [flags_class] !wellKnownFlags(flags) ==> isTAW(err, 6, 3, 4) && attrTLV(tawNotif(err).Data, 6, b)
 //@   ensures [len_class]   wellKnownFlags(flags) && len(b) != 0 ==> isAD(err, 6, 3, 5) && attrTLV(adNotif(err).Data, 6, b)
+// Known finding D9: the code demands Optional=1. The three clauses above fail
+// inside the region Transitive(flags); the clauses below pin the behaviour the
+// code has there today, so that any other deviation is still reported.
+//@   ensures [asis_accept_iff] (err == nil) == (optTransFlags(flags) && len(b) == 0)
+//@   ensures [asis_len_class]  optTransFlags(flags) && len(b) != 0 ==> isAD(err, 6, 3, 5) && attrTLV(adNotif(err).Data, 6, b)
+//@   ensures [asis_flags_class] !optTransFlags(flags) ==> isTAW(err, 6, 3, 4) && attrTLV(tawNotif(err).Data, 6, b)
 //@   modifies *a
 
 //@ func AggregatorPathAttr.Decode returns (err)
